@@ -40,6 +40,28 @@ ANGLES = {
 }
 ORDER = ["interplay", "tolerated", "publicapi", "late", "subclass"]
 
+ANGLES2 = {
+    "boundary": "BOUNDARY IN TIME OR SIZE: the break must sit exactly on a boundary - the first or last step of a session, "
+                "step 0, the last step of the run, the step at which a time-to-live ends, an empty or one-element "
+                "collection (one agent, one market, one order on a side, a session of one step), a count of exactly "
+                "the configured maximum - and be invisible one unit away from it.",
+    "ordering": "ORDER DEPENDENCE: the break must depend on the ORDER in which things are declared or happen - the order of "
+                "markets / agents / events / sessions in the configuration, of keys inside a settings block, of orders "
+                "inside one submission, of two operations inside one step - with the common order behaving correctly.",
+    "errorpath": "EXCEPTION PATH AND PARTIAL STATE: pams raises on purpose in many places. Put the break on what is left "
+                 "behind when one of these deliberate exceptions is raised half-way (a list already appended to, a "
+                 "counter already incremented, a flag already set) and the caller catches it and carries on, or on a "
+                 "`try/except/finally` or early `return` that skips a step that must always happen.",
+    "defaults": "DEFAULTS AND OPTIONAL SETTINGS: the break must only show when an OPTIONAL setting or argument is left out "
+                "(so that its default applies) or is given explicitly with the value that equals the default, or when "
+                "an optional block of the configuration is absent / empty.",
+    "numeric": "NUMERIC CORNER WITH ORDINARY VALUES: the break must come from arithmetic on ordinary floats and ints a user "
+               "would write (0.1, 0.25, 1/3, 1e-5, 1000000, equal values, values differing in the last digit): a "
+               "comparison that should be <= instead of <, a rounding direction, integer versus true division, an "
+               "accumulation order, a sum that should be a mean - not tolerances like isclose and not exotic types.",
+}
+ORDER2 = ["boundary", "ordering", "errorpath", "defaults", "numeric"]
+
 TEMPLATE = """You are working in a git worktree of the open-source Python project masanorihirano/pams (PAMS: a pure-Python agent-based artificial market simulator with a limit order book matching engine, sessions, events and stochastic fundamental price generation). The worktree is at {wt}. Work ONLY inside {wt}: do not read, list or modify /repo, /verif or any other directory outside {wt} (reading the Python standard library or site-packages is fine).
 
 Interpreter: /venv/bin/python (numpy, scipy, pytest installed). Run the project's test suite with:
@@ -82,6 +104,7 @@ def main():
     ap.add_argument("--props", default="")
     ap.add_argument("--shift", type=int, default=0, help="rotate the angle assignment")
     ap.add_argument("--no-worktree", action="store_true")
+    ap.add_argument("--set", type=int, default=1, help="1 = first set of angles, 2 = second set")
     a = ap.parse_args()
     props = [json.loads(l) for l in open(os.path.join(HERE, "properties.jsonl")) if l.strip()]
     only = set(filter(None, a.props.split(",")))
@@ -97,7 +120,8 @@ def main():
             except Exception:  # noqa
                 continue
             taken.append('    - "%s"' % str(m.get("summary", ""))[:420].replace("\n", " "))
-        angle = ANGLES[ORDER[(i + a.shift) % len(ORDER)]]
+        angles, order = (ANGLES, ORDER) if a.set == 1 else (ANGLES2, ORDER2)
+        angle = angles[order[(i + a.shift) % len(order)]]
         q = p.get("quantifier")
         quant = q.get("text") if isinstance(q, dict) else str(q)
         txt = TEMPLATE.format(wt=wt, id=p["id"], title=p["title"], statement=p["statement"], quant=quant,
@@ -106,7 +130,7 @@ def main():
         if not a.no_worktree and not os.path.isdir(wt):
             subprocess.run(["git", "-C", "/repo", "worktree", "add", "--detach", wt, "HEAD"], check=True,
                            stdout=subprocess.DEVNULL, stderr=subprocess.DEVNULL)
-        print(p["id"], ORDER[(i + a.shift) % len(ORDER)], wt)
+        print(p["id"], order[(i + a.shift) % len(order)], wt)
 
 
 if __name__ == "__main__":
